@@ -1,12 +1,13 @@
 (* C04 - Equilibrium population is the stationary probability vector.
-   Statements only.  Existence/stationarity are certified per case and proved for
-   whatever the model returns; uniqueness is proved for matrices reported ergodic
-   (some power entrywise positive).  Partial: for a reducible matrix whose only
-   closed class is aperiodic the reduction to the restricted matrix (mask = closed
-   class) is compared, not proved; LAPACK's choice in degenerate eigenspaces is
-   only checked relationally. *)
+   Statements only.  First clause (peq_closed_unique_thm): for a stochastic, threshold-free matrix whose only
+   closed class is aperiodic and larger than every other class, the model's answer is THE unique probability
+   vector pi with pi T = pi, zero outside that class - existence, finding it, stationarity for T itself
+   and uniqueness among all stationary probability vectors of T are proved (Proofs/PeqClosed.v, on the
+   mask theorem of C14, the Wielandt bound and the totality of the exact solver).  Second clause:
+   peq_general (what is returned is stationary for the renormalised restriction to the mask).  Third:
+   peq_strict_rejects.  Left to the tie: LAPACK's eigenvector against the exact vector (1e-9). *)
 From Coq Require Import List ZArith Arith Bool QArith Qcanon.
-From MsmV Require Import Lib.Result Lib.PyList Lib.QMat Model.Ergodic Model.Peq Proofs.QMatFacts Proofs.HSFacts Proofs.ErgodicFacts Proofs.UniqueFacts Proofs.PeqFacts Proofs.GaussFacts Proofs.Totality.
+From MsmV Require Import Lib.Result Lib.PyList Lib.QMat Model.Ergodic Model.Peq Proofs.QMatFacts Proofs.HSFacts Proofs.ErgodicFacts Proofs.UniqueFacts Proofs.PeqFacts Proofs.GaussFacts Proofs.Totality Proofs.MaskFacts Proofs.PeqClosed.
 Import ListNotations.
 Local Open Scope nat_scope.
 
@@ -66,6 +67,40 @@ Theorem stationary_exists_thm : forall n k T, 0 < n -> wf n n T -> entries_nonne
     vmul pi T = pi /\ qsum pi = 1%Qc /\ (forall t, In t pi -> (0 <= t)%Qc).
 Proof. exact stationary_exists_spec. Qed.
 Print Assumptions stationary_exists_thm.
+(* FIRST CLAUSE, complete: under the guard of the property (stochastic, away from the 1e-8 threshold, c's class the
+   only closed class, aperiodic, larger than every other class; `guard` spells it out) peq returns a vector, it is a
+   probability vector stationary for T itself, zero outside the class, and every stationary probability vector
+   of T equals it *)
+Theorem peq_closed_unique_thm : forall n M c, guard n M c ->
+  exists v, peq M true = Ok (Some v) /\ length v = n /\
+    vmul v M = v /\ qsum v = 1%Qc /\ (forall x, In x v -> (0 <= x)%Qc) /\
+    (forall i, i < n -> ~ comm (supp M) c i -> nth i v 0%Qc = 0%Qc) /\
+    (forall u, length u = n -> (forall x, In x u -> (0 <= x)%Qc) -> qsum u = 1%Qc -> vmul u M = u -> u = v).
+Proof. exact peq_closed_unique. Qed.
+Print Assumptions peq_closed_unique_thm.
+(* the non-ergodic branch in detail: the executable mask is exactly the closed class, the exact solver finds the
+   stationary vector of the renormalised restriction, and scattering it gives a stationary vector of T *)
+Theorem peq_closed_found_thm : forall n M c, guard n M c -> is_ergodic atol8 M = false ->
+  exists mask w, ergodic_mask atol8 M = Ok mask /\
+    (forall i, i < n -> (nth i mask false = true <-> comm (supp M) c i)) /\
+    stationary (row_normalize (restrict_mat mask M)) = Some w /\
+    peq M true = Ok (Some (scatter mask w)) /\
+    length (scatter mask w) = n /\
+    vmul (scatter mask w) M = scatter mask w /\ qsum (scatter mask w) = 1%Qc /\
+    (forall x, In x (scatter mask w) -> (0 <= x)%Qc) /\
+    (forall i, i < n -> ~ comm (supp M) c i -> nth i (scatter mask w) 0%Qc = 0%Qc).
+Proof. exact peq_closed_found. Qed.
+Print Assumptions peq_closed_found_thm.
+(* stationary probability vectors carry no mass on transient states *)
+Theorem stationary_zero_on_transient_thm : forall n M c u, guard n M c ->
+  length u = n -> (forall x, In x u -> (0 <= x)%Qc) -> qsum u = 1%Qc -> vmul u M = u ->
+  forall i, i < n -> ~ comm (supp M) c i -> nth i u 0%Qc = 0%Qc.
+Proof. exact stationary_zero_on_transient. Qed.
+Print Assumptions stationary_zero_on_transient_thm.
+(* the guard is satisfiable: closed class {0,1}, transient state 2 with a self loop, not ergodic *)
+Example guard_example_thm : guard 3 Tex 0 /\ is_ergodic atol8 Tex = false.
+Proof. split; [exact guard_example | exact guard_example_nonergodic]. Qed.
+Print Assumptions guard_example_thm.
 
 Example peq_example :
   let T := row_normalize (mat_of_Z [[1; 1; 0]; [1; 3; 0]; [1; 1; 2]]%Z) in
